@@ -67,3 +67,19 @@ Record acc_cfg := {
   ac_iban_proxy : list (text * text);     (* IBAN property -> BBAN attribute it returns *)
   ac_bban_comp : list (text * text);      (* BBAN property -> Component value it reads *)
 }.
+
+(* object protocol facts read off common.py / bban.py / iban.py / bic.py (C16) *)
+Inductive deepcopy_kind := DcRevalidate | DcPreserve | DcNone.
+Record class_proto := {
+  cp_new_arity : nat;            (* positional parameters of __new__ after cls *)
+  cp_newargs : option nat;       (* Some n: the class (or a base below str) defines __getnewargs__ returning n values *)
+  cp_deepcopy : deepcopy_kind;   (* which __deepcopy__ the class inherits *)
+}.
+Record obj_cfg := {
+  oc_iban : class_proto;
+  oc_bic : class_proto;
+  oc_bban : class_proto;
+  oc_eq_compact : bool;          (* Base.__eq__ compares str(self) == str(other) *)
+  oc_hash_compact : bool;        (* Base.__hash__ is hash(str(self)) *)
+  oc_lt_compact : bool;          (* Base.__lt__ compares str(self) < str(other) *)
+}.
